@@ -584,6 +584,44 @@ Proof.
   all: try (msg_goal; try (split; [vm_compute; reflexivity|intros _; vm_compute; reflexivity])).
   all: ev_goal. all: fin_goal.
 Qed.
+
+(* non-vacuity of the duplicate branch: a guaranteed send ("AB", callback 5, message number 3) goes out
+   in datagram 3, which B accepts and delivers; B's acknowledgement is lost; a keep-alive interval
+   later the re-send store puts a copy — SAME message number 3, same payload — into datagram 4; B
+   accepts datagram 4, its message window flags number 3 and nothing is delivered twice (the ghost
+   does not change); B's keep-alive acknowledges 4 and 3, both registered for the same RetrySender:
+   callback 5 reports True exactly once, and "AB" is in dlvB exactly once.  A short session. *)
+Definition Mr3 := mrun env_n mnet0 (hm1 ++ hm2 ++ hm3).
+Definition hr4 : list lev3 :=
+  [((NB (ERecv 6000 (lastABm Mr3) [orc_n]), 2), [2]); ((NA (ESend [x41; x42] RTimeout (IUser 5)), 0), []);
+   ((NA (EClientTick 7000 RxNone), 0), [])].
+Definition Mr4 := mrun env_n Mr3 hr4.
+Definition hr5 : list lev3 := [((NB (ERecv 8000 (lastABm Mr4) []), 3), [3]); ((NA (EClientTick 9000 RxNone), 0), [])].
+Definition Mr5 := mrun env_n Mr4 hr5.
+Definition hr6 : list lev3 := [((NB (ERecv 10000 (lastABm Mr5) []), 4), [3]); ((NB (EServerTick 11000), 0), [])].
+Definition Mr6 := mrun env_n Mr5 hr6.
+Definition xr7 : ev := EClientTick 12000 (RxDgram (lastBAm Mr6) []).
+Definition hr : list lev3 := hm1 ++ hm2 ++ hm3 ++ hr4 ++ hr5 ++ hr6.
+
+Example C07_retransmitted_copy_delivered_once_example :
+  short3_run env_n mnet0 (hr ++ [((NA xr7, 0), [])]) /\
+  dg_msgs (lastABm Mr4) = [{| w_seq := 3; w_type := APP; w_payload := [x41; x42] |}] /\
+  dg_msgs (lastABm Mr5) = [{| w_seq := 3; w_type := APP; w_payload := [x41; x42] |}] /\
+  h_seq (d_hdr (lastABm Mr4)) = 3 /\ h_seq (d_hdr (lastABm Mr5)) = 4 /\
+  fst (m_st Mr5) = Some (3, [3; 2; 1]) /\ m_st Mr6 = m_st Mr5 /\
+  dlvB (g_net (m_g Mr6)) = [[x41; x42]] /\ mrun env_n mnet0 hr = Mr6 /\
+  filter (fun o => match o with OCallback _ _ => true | _ => false end) (snd (step env_n (nA (g_net (m_g Mr6))) xr7))
+    = [OCallback 5 true].
+Proof.
+  split.
+  { unfold hr, hm1, hm2, hm3, hr4, hr5, hr6, lab, hn1, hn2, hn3, xr7. cbn [combine app short3_run].
+    unfold short3_ev. cbn [fst snd auth_ev ev_open2].
+    repeat match goal with |- _ /\ _ => split | |- True => exact I end;
+      try (match goal with |- _ <= _ => vm_compute; discriminate end).
+    all: try (msg_goal; try (split; [vm_compute; reflexivity|intros _; vm_compute; reflexivity])).
+    all: ev_goal. all: fin_goal. }
+  vm_compute. repeat split; auto 10.
+Qed.
 (* ---- end block: message level ---- *)
 
 (* Invariant used by 1 (fragment sender contexts kept in pending_fragments are never complete):
